@@ -9,6 +9,10 @@ claimed = {
    text="Bounded-exhaustive exploration of the descriptor-shape space: every reference graph over <=2 messages (and over 3 messages up to an edge bound) with singular/repeated/map/oneof edges incl. self and mutual recursion, nesting ladders to depth 32 and degenerate files, times 7 plugin/parameter configurations, each executed on the real plugin binaries built from the working tree under a timeout and an address-space limit. Right level because termination/crash freedom is a per-input safety property and the defects live in recursion over the message graph, which small graphs exhaust.",
    note="Assumes: " + TB + "; termination judged by a 20 s/60 s guard against ~30 ms typical runs; exit status 1 with protogen's '<plugin>: message' on stderr counts as an error answer.",
    tech="bounded-exhaustive enumeration of descriptor graphs executed on the real plugin binaries", ref="DESIGN.md section 8 C16"),
+ "C13": dict(
+   text="Bounded-exhaustive exploration of the accepted-schema universe (core = every feature combination of sebuf's own docs/testdata; extended = deviation-bounded families) times the four plugin subsets/orders {go-http, go-client, go-http+go-client, go-client+go-http}: the real plugins generate, the real Go compiler (go build -gcflags=-e) and the go-test vet subset judge each package, and node 22 imports each emitted TypeScript module. The oracle is the compiler/loader itself, so the level is exhaustive-over-programs rather than sampled goldens.",
+   note="Assumes: " + TB + "; protovalidate runtime replaced by an API-compatible stand-in; TypeScript judged by node 22 type stripping (syntax + module load), not by a type checker (none available).",
+   tech="bounded-exhaustive enumeration of schemas x plugin subsets, compiled/vetted/loaded by the real toolchains", ref="DESIGN.md section 8 C13"),
 }
 NA_REASON = "check not built yet (build in progress; see DESIGN.md section 14)"
 checks = []
